@@ -436,7 +436,15 @@ def main():
             print("property %s is not claimed" % a.prop)
             sys.exit(2)
         seed = int(os.environ.get("VERIF_SEED", "0") or 0)
-        sys.exit(check(a.prop, a.tier, a.repo, seed))
+        try:
+            rc = check(a.prop, a.tier, a.repo, seed)
+        except Exception:
+            # an internal error of the machinery is "undecided" (exit 2), never a violation (exit 1 is python's default for a crash)
+            import traceback
+            traceback.print_exc()
+            print("UNDECIDED %s: internal error of the checking machinery (see traceback)" % a.prop)
+            rc = 2
+        sys.exit(rc)
     if a.cmd == "replay":
         sys.exit(replay(a.path))
     if a.cmd == "manifest":
